@@ -878,6 +878,16 @@ func (c *Ctx) stageRace(refs map[refKey]*Ref, keys []refKey) {
 	if len(small) < 2 {
 		small = keys
 	}
+	// documents whose solo run touches process-wide locked state (hyphenation cache):
+	// at least two of them start together in most rounds, so that the shared state is
+	// actually contended (a fault while idle tests nothing)
+	var lockers []refKey
+	for _, k := range small {
+		if refs[k].Res.LockOps > 0 || refs[k].Sc.Family == "hyph" {
+			lockers = append(lockers, k)
+		}
+	}
+	c.Ev.Probes["race_documents_touching_locked_state"] = len(lockers)
 	pool := NewPool(c.Build.RaceWorker, c.Pool.args, []string{"GORACE=halt_on_error=1 exitcode=66"}, 4, 300*time.Second)
 	var specs []*Spec
 	for i := 0; i < rounds; i++ {
@@ -886,6 +896,9 @@ func (c *Ctx) stageRace(refs map[refKey]*Ref, keys []refKey) {
 		shared := rng.Intn(2) == 0
 		for t := 0; t < nt; t++ {
 			k := small[rng.Intn(len(small))]
+			if len(lockers) > 0 && t < 3 && i%3 != 2 {
+				k = lockers[rng.Intn(len(lockers))]
+			}
 			ops := docOps(refs[k].Sc, refs[k].Cfg, "", false)
 			sc := refs[k].Sc
 			if shared && sc.Expect.Group != "" && len(sc.UserCSS) > 0 && len(sp.Shared) == 0 {
